@@ -84,6 +84,20 @@ def cases(rng, budget, widx, nworkers, tier):
             yield {"d": a, "vs": rng.getrandbits(30), "ns": rng.getrandbits(30), "nm": b, "label": "neg-unit-shift"}
             continue
         d = ("VEC", gen.rdir(rng, 4)) if k == "VEC" else gen.rand_obj(rng, k, small=sm())
+        rr = rng.random()
+        if k == "PG" and rr < 0.06:
+            d = gen.slab_polygon(rng)[2]                    # two vertices that hash alike (-1 against -2)
+        elif k == "PH" and rr < 0.06:
+            d = gen.slab_body(rng, wide=rng.random() < 0.4)[1]
+        elif k == "L" and rr < 0.08:
+            # direction of rational length (unit components are short decimals), support chosen so that the moment is one too
+            dv = rng.choice(((3, 4, 0), (0, 3, 4), (4, 0, 3), (1, 2, 2), (2, 1, 2), (2, 3, 6), (6, 2, 3)))
+            dv = tuple(gen.F(c) * rng.choice((1, -1)) for c in dv)
+            d = ("L", gen.rpt(rng, 3, (1, 1, 2)), dv)
+        elif k == "PL" and rr < 0.1:
+            ax = [gen.F(0)] * 3
+            ax[rng.randrange(3)] = gen.F(rng.choice((1, -1)))
+            d = ("PL", gen.rpt(rng), tuple(ax))            # normal of length exactly 1
         yield {"d": d, "vs": rng.getrandbits(30), "ns": rng.getrandbits(30)}
 
 
@@ -218,6 +232,12 @@ def _nearmiss(d, r):
         return [("H", d[1], K.mul(d[2], -1)),                                   # same origin, opposite direction
                 ("H", K.add(d[1], K.mul(d[2], r.choice((1, F(1, 2), -1)))), d[2]),   # origin slid along the carrier
                 ("H", K.add(d[1], d[2]), K.mul(d[2], -1))][c]                       # overlapping, opposite sense
+    if k in ("L", "PL") and r.random() < 0.12:
+        # the point reflection of the object through the origin: parallel, same |offset| / |moment|, another set unless
+        # it passes through the origin
+        nm_ = gen.origin_mirror(d)
+        if gen.ok_coords(nm_, 64, 40):
+            return nm_
     if k in ("L", "H"):
         if r.random() < 0.5:
             # displaced support point (off the carrier)
